@@ -831,6 +831,41 @@ func genC08(r *Rng, n int, tier string) {
 		}
 		recs = append(recs, ndRecOf("net.c08", optsM(modes), secs...))
 	}
+	// (j) ASCII lines with white space outside ASCII at their edges: strings.TrimSpace strips every rune with
+	// unicode.IsSpace (U+0085, U+00A0, U+1680, U+2000-U+200A, U+2028, U+2029, U+202F, U+205F, U+3000), not only the
+	// six ASCII blanks; bytes that merely look like part of such a rune (a lone 0xA0, U+200B) stay.  The protocol
+	// does not say whether such a character is padding (the monitor skips these records); the model must agree.
+	uni := []struct{ sent, kept string }{
+		{"HWC#5=Down\u00a0", "HWC#5=Down"},
+		{"\u0085ping\u2028\r", "ping"},
+		{"\u3000 _name=Some Panel Name \u3000 \t", "_name=Some Panel Name"},
+		{"\u00a0", ""},
+		{"\u1680\u2000HWC#12=Up\u200a\u202f\u205f\u2029", "HWC#12=Up"},
+		{"_name=Some\u00a0Panel", "_name=Some\u00a0Panel"},
+		{"ping\xa0", "ping\xa0"},
+		{"\xc2ack", "\xc2ack"},
+		{"nack\u200b", "nack\u200b"},
+		{"list\xe2\x80", "list\xe2\x80"},
+	}
+	vocU := [][]byte{}
+	su := []byte{}
+	for _, u := range uni {
+		vocU = append(vocU, []byte(u.kept))
+		su = append(su, []byte(u.sent+"\n")...)
+	}
+	optsU := []string{"mode=a", "end=250", ndVoc(vocU)}
+	recs = append(recs, ndRecOf("net.c08", optsU, ndHandshake("a"), []string{ndW(su)}))
+	for c1 := 1; c1 < len(su); c1++ {
+		if !thorough && c1%9 != int(r.s%9) {
+			continue
+		}
+		recs = append(recs, ndRecOf("net.c08", optsU, ndHandshake("a"), ndCutWrites(su, []int{c1}, 2)))
+	}
+	allu := []int{}
+	for c := 1; c < len(su); c++ {
+		allu = append(allu, c)
+	}
+	recs = append(recs, ndRecOf("net.c08", optsU, ndHandshake("s"), ndCutWrites(su, allu, 1)))
 	_ = n
 	ndEmitBatch(recs)
 }
@@ -1361,6 +1396,25 @@ func genC12(r *Rng, n int, tier string) {
 					}
 					recs = append(recs, ndRec{cmd, append([]string{"end=250"}, toks...)})
 				}
+			}
+		}
+		// replies that reach the single probe Read in two segments (an acknowledge frame whose header and payload are
+		// written separately, a ready word cut in two): outside the property's domain (the monitor skips them,
+		// B:skip-reply-in-several-segments), but the model's verdict for the first segment is still compared
+		for _, sp := range []struct {
+			rep []byte
+			k   int
+		}{{ndFrame(ndAck), 4}, {ndFrame(ndAck), 1}, {ndFrame(ndAck), 2}, {ndFrame(ndAck), 5}, {[]byte("RDY\n"), 2}, {[]byte("map=1:2\n"), 4}} {
+			for _, d := range []int{0, 500} {
+				if tier != "thorough" && d > 0 && sp.k != 4 {
+					continue
+				}
+				toks := []string{"conn", "p6"}
+				if d > 0 {
+					toks = append(toks, ndS(d))
+				}
+				toks = append(toks, ndW(sp.rep[:sp.k]), "s300", ndW(sp.rep[sp.k:]), "s150")
+				recs = append(recs, ndRec{cmd, append([]string{"end=250"}, toks...)})
 			}
 		}
 		// silence for the whole window (then nothing / then late data / then close), and close inside the window
